@@ -1,29 +1,77 @@
 """C20 configuration for bin/check."""
 
-CFG = {'assumptions': ['PARTIAL: a Gallina model is a function and cannot exhibit address/seed/clock dependence; '
-                 'the theorem half only covers the source inventory'],
+CFG = {'assumptions': ['PARTIAL: a Gallina model is a function and cannot exhibit address/seed/clock dependence of '
+                 'the BINARY; what is modelled is the mechanism (iteration order of hash containers as a '
+                 'function of history / hasher values / capacity policy / shard count, with the process '
+                 'environment as an explicit parameter) and what is proved about the source is the '
+                 'classification of its iteration sites and nondeterminism sources',
+                 'OUTSIDE every executable model, and why: (1) allocator addresses -- a Gallina term has no '
+                 'address; address dependence can only enter through pointer-to-integer conversion, pointer '
+                 'formatting, pointer comparison or address-seeded hashing, and the model can only carry the '
+                 'INVENTORY of those conversions (nd_sources: NdAddr/NdPtrFmt sites, reviewed), not the '
+                 'values an allocator returns, which are an input of the OS/allocator and not a function of '
+                 'the program; (2) OS scheduling -- with one thread there is one interleaving, so the model '
+                 'is faithful there; the claim that the single-threaded configuration really runs on one '
+                 'thread (pool size 1, no rayon/OS threads spawned behind the API) is a property of the '
+                 'binary and of the thread-pool crate, checked only by the run comparison under different '
+                 'CPU affinities; (3) the hash values of the real FxHasher / foldhash and hashbrown\'s open '
+                 'addressing are abstracted (order = function of hash values and capacity history is kept; '
+                 'the concrete permutation is not) -- so the model predicts THAT two runs agree, never WHICH '
+                 'order they show; (4) the scan types receivers by declared field / local / parameter types '
+                 'and file-level `use` resolution (no rustc type inference): an iteration whose receiver is a '
+                 'call result, a tuple-struct field, or is built inside a macro body is not seen, except for '
+                 'the map-only methods (keys/values/drain()/shards) which are inventoried untyped'],
  'harness': [{'bin': 'h_repro', 'name': 'h_repro'}],
- 'link_only': 'bit-for-bit reproducibility of the real binary (addresses, hash seeds, environment, clock): '
-              'transcripts (command outputs incl. row order, extraction results and variants, run reports '
-              "without timings, raw dumps) of generated sessions and of the repository's small test files "
-              'compared byte for byte across two in-process runs and three child processes (ASLR off via '
-              'setarch -R, padded/different environments, cwd, TZ, LANG)',
- 'manifest': {'level_note': 'Trusted: Coq kernel, translator inventory (syn-based scan of non-test sources), '
-                            'harness. The run comparison is differential testing, not proof; see DESIGN.md '
-                            'section 8.',
-              'technique': 'kernel-checked source-inventory facts (Coq) + cross-process byte comparison of '
-                           'transcripts',
-              'text': 'PARTIAL. Kernel-checked facts over the source inventory regenerated on every run '
-                      '(every hash-container alias uses the unseeded FxHasher; std::collections hash '
-                      'containers are named only by the allow-listed serialize.rs), plus a byte-for-byte '
-                      'transcript comparison of real runs across processes, ASLR settings and environments. '
-                      'A theorem about a Gallina model cannot exhibit address/hash-seed/clock dependence of '
-                      'the binary, so the end-to-end claim rests on the run comparison (testing) and is '
-                      'labelled as such.'},
- 'model_targets': [],
+ 'link_only': 'bit-for-bit reproducibility of the real binary (addresses, hash seeds, environment, clock, '
+              'CPU count): transcripts (command outputs incl. row order, extraction results and variants, '
+              'run reports and print-stats without timings, serialized e-graph JSON, raw dumps) of '
+              "generated sessions, fixed families and the repository's test files compared byte for byte "
+              'across two in-process runs and five child processes (ASLR off via setarch -R, padded/different '
+              'environments, cwd, TZ, LANG, 1 and 2 CPUs via taskset). Also link-only: that the reviewed '
+              'reasons in Det/Sites.v (e.g. "rows are sorted before the refresh", "multi-threaded branch '
+              'only") are true of the code -- the kernel checks that the SET of sites needing a reason is '
+              'exactly the reviewed set, not the reasons themselves',
+ 'manifest': {'level_note': 'Trusted: Coq kernel, translator inventories (syn-based scans of non-test sources; '
+                            'receiver typing by declared types and file-level use resolution, no type '
+                            'inference), harness. The run comparison is differential testing, not proof; see '
+                            'DESIGN.md section 8.',
+              'technique': 'executable Gallina model of iteration-order determinism with theorems for all '
+                           'histories/hashers (Coq) + kernel-checked classification of the regenerated '
+                           'iteration-site and nondeterminism-source inventories + cross-process byte '
+                           'comparison of transcripts',
+              'text': 'PARTIAL. Proved for all histories: an insertion-ordered container iterates in an order '
+                      'independent of the hasher; a bucket-ordered table in an order that is a function of '
+                      '(history, hasher values, capacity policy) and a sharded map additionally of the shard '
+                      'count; with a per-process seed, or with the CPU-derived default shard count, the order '
+                      'is refuted to be reproducible (kernel-evaluated witnesses; the latter is the shape of '
+                      'finding F13). Tied to the source by inventories regenerated on every run: every '
+                      'iteration site over a hash-based container is of a theorem-backed class or is in the '
+                      'reviewed table with its count; clock/rng/CPU-count/pointer-format/env/pid/address '
+                      'reads equal the reviewed table. A theorem about a Gallina model cannot exhibit '
+                      'address/hash-seed/clock dependence of the binary, so the end-to-end claim rests on the '
+                      'byte-for-byte run comparison across processes, ASLR settings, environments and CPU '
+                      'affinities (testing), and is labelled as such.'},
+ 'model_targets': ['Det/IterModel.vo'],
  'proof_targets': ['Props/C20.vo'],
- 'theorem_backed': 'kernel-checked facts about the regenerated source inventory: all hash-container aliases '
-                   'use FxHasher (no seed); the only std-hash user is the allow-listed src/serialize.rs',
- 'tier_a': ['Facts.hash_inventory'],
+ 'theorem_backed': 'for all operation histories: IndexMap-like iteration = hasher-free replay of the history '
+                   '(every hasher, every initial capacity); hashbrown-like bucket iteration and DashMap-like '
+                   'shard iteration are functions of (history, hasher values, capacity policy[, shard count]); '
+                   'process-level reproducibility for every environment-fixed class; refutations for a '
+                   'per-process seed and for the CPU-derived shard count. Kernel-checked facts over the '
+                   'regenerated inventories: all hash-container aliases use FxHasher; std hash users and '
+                   'default-hasher import sites allow-listed; EVERY iteration site (for/iter/iter_mut/drain/'
+                   'into_iter/keys/values/.../retain/shards) over a hash-based container in src, '
+                   'egglog-bridge/src, core-relations/src is of class insertion-ordered or fixed-hasher '
+                   'bucket-ordered, or is one of the reviewed sites (file, fn, receiver, class, count), and no '
+                   'reviewed entry is stale; clock / rng / CPU-count / pointer-formatting / environment / pid / '
+                   'address reads of the 8 workspace crates equal the reviewed table (no rng, {:p} or pid '
+                   'read exists)',
+ 'tier_a': ['Facts.hash_inventory', 'DetFacts.iter_sites', 'DetFacts.nd_sources'],
  'trusted': ['translator facts: inventory of hash-container aliases and of files naming '
-             'std::collections::Hash{Map,Set}/RandomState (non-test code), regenerated on every run']}
+             'std::collections::Hash{Map,Set}/RandomState (non-test code), regenerated on every run',
+             'translator x_det: iteration-site inventory (receiver typed from struct-field / local / parameter '
+             'declarations and constructor paths, container names resolved through the file\'s use items and '
+             'the crate\'s aliases; field names are crate-wide so collisions over-approximate) and token-level '
+             'inventory of nondeterminism sources (covers macro arguments), regenerated on every run',
+             'the abstraction of hashbrown/indexmap/dashmap by the models of Det/IterModel.v (chained buckets '
+             'for open addressing, index modelled by its abstraction function)']}
